@@ -21,6 +21,8 @@ import (
 	"strings"
 	"sync"
 	"time"
+
+	rlog "github.com/smallnest/rpcx/log"
 )
 
 type Violation struct {
@@ -243,6 +245,7 @@ func main() {
 	if outDir == "" {
 		outDir = filepath.Join(os.TempDir(), "verif-"+name)
 	}
+	rlog.SetDummyLogger()
 	o := newOut(outDir)
 	r := rand.New(rand.NewSource(seed))
 	f(o, r)
